@@ -209,7 +209,21 @@ def run_check(mod, tier: str, seed: int, jobs: int, cap_s: float | None = None) 
         pool = ctx.Pool(min(jobs, len(order)), initializer=_worker_init)
         it = pool.imap_unordered(_call_shard, [(modname, s) for s in order], chunksize=1)
     try:
-        for status, payload in it:
+        while True:
+            try:
+                if pool is not None and cap_s is not None:
+                    # wait for the next shard, but never beyond the cap (a shard that never returns must not hang the run)
+                    remaining = cap_s - (time.time() - t0)
+                    if remaining <= 0:
+                        raise mp.TimeoutError
+                    status, payload = it.next(timeout=remaining)
+                else:
+                    status, payload = next(it)
+            except StopIteration:
+                break
+            except mp.TimeoutError:
+                cap_hit = True
+                break
             if status != 'ok':
                 raise HarnessError(payload)
             total.merge(payload)
@@ -223,7 +237,7 @@ def run_check(mod, tier: str, seed: int, jobs: int, cap_s: float | None = None) 
             pool.join()
 
     # determinism: the first shard of the canonical order is recomputed and must agree exactly
-    if getattr(mod, 'DETERMINISM_RECHECK', True):
+    if getattr(mod, 'DETERMINISM_RECHECK', True) and not cap_hit:
         def _safe(sh):
             try:
                 return mod.run_shard(sh)
@@ -239,8 +253,10 @@ def run_check(mod, tier: str, seed: int, jobs: int, cap_s: float | None = None) 
             # that depend on memory addresses): report the violations; the replay files say what was observed
             print('NOTE: two executions of shard 0 differ (behaviour of the code under test is not reproducible run-to-run)')
 
-    if hasattr(mod, 'finalize'):
+    if hasattr(mod, 'finalize') and not cap_hit:
         mod.finalize(total, tier)
+    if cap_hit and tier == 'quick' and total.n_viols == 0:
+        raise HarnessError(f'quick tier did not finish within its {cap_s:.0f} s safety cap ({done}/{len(order)} shards): not a verdict')
 
     wall = time.time() - t0
     return report(mod, total, tier, seed, wall, len(shards), done, cap_hit)
